@@ -1,6 +1,6 @@
 """tools/unit.py <prop> <unit-function> [args...] : run one verification unit and show timing / failures"""
 import importlib, sys, time
-sys.path[:0] = ['/verif', '/repo']
+sys.path[:0] = ['/verif', __import__('os').environ.get('VERIF_REPO', '/repo')]
 mod = importlib.import_module('props.' + sys.argv[1])
 name = sys.argv[2]
 args = [int(a) if a.lstrip('-').isdigit() else (a == 'True' if a in ('True', 'False') else a) for a in sys.argv[3:]]
